@@ -136,13 +136,16 @@ def seam_probe(rep, rng, n):
 
 
 def manufactured(rep, rng, n):
-    """Direct SciPy call with hand-written callables vs optyx, same start, same method."""
+    """Direct SciPy call with hand-written NumPy callables vs optyx, same start, same method; the same Problem is then
+    edited (constraints added singly and as lists, bounds edited) and re-solved, against a direct call on the edited model."""
     from scipy.optimize import minimize as sp_minimize
     from optyx import Variable, Problem
     from optyx.core import functions as F
     from optyx.solution import SolverStatus
     from optyx.solvers.scipy_solver import _compute_initial_point
     tried = conv = 0
+    layouts = ["none", "eq", "ineq_active", "ineq_inactive", "bounds_active", "bounds_inactive", "eq_then_ineq", "ineq_then_eq", "two_ineq"]
+    edits_hist = {}
     for i in range(n):
         r = random.Random(rng.random())
         nv = r.randint(2, 4)
@@ -151,7 +154,7 @@ def manufactured(rep, rng, n):
         a = np.array([r.choice([-1.0, 0.5, 2.0, 1.0, -0.5]) for _ in range(nv)])
         d = np.array([r.choice([1.0, 2.0, 0.5, 4.0]) for _ in range(nv)])
         kind = r.choice(["qp", "exp"])
-        cons_kind = r.choice(["none", "eq", "ineq_active", "ineq_inactive", "bounds_active", "bounds_inactive"])
+        cons_kind = layouts[i % len(layouts)]
         mx = r.random() < 0.4
         def f_np(x, order):
             xa = np.array([x[order[nm]] for nm in names])
@@ -170,60 +173,117 @@ def manufactured(rep, rng, n):
         P = Problem()
         (P.maximize(-expr) if mx else P.minimize(expr))
         s = float(np.sum(a))
-        np_cons = []
-        order_holder = {}
-        if cons_kind == "eq":
-            P.subject_to(sum(vs[1:], vs[0]).eq(s - 1.0))
-            np_cons = [{"type": "eq", "fun": lambda x: float(np.sum(x)) - (s - 1.0), "jac": lambda x: np.ones(len(x))}]
-        elif cons_kind == "ineq_active":
-            P.subject_to(sum(vs[1:], vs[0]) <= s - 1.0)
-            np_cons = [{"type": "ineq", "fun": lambda x: (s - 1.0) - float(np.sum(x)), "jac": lambda x: -np.ones(len(x))}]
-        elif cons_kind == "ineq_inactive":
-            P.subject_to(sum(vs[1:], vs[0]) <= s + 50.0)
-            np_cons = [{"type": "ineq", "fun": lambda x: (s + 50.0) - float(np.sum(x)), "jac": lambda x: -np.ones(len(x))}]
-        elif cons_kind == "bounds_active":
+        total = sum(vs[1:], vs[0])
+        # constraint pieces: (optyx constraint, numpy dict builder given the variable order)
+        w = np.array([1.0 + 0.5 * k for k in range(nv)])
+        wexpr = sum((float(w[k]) * vs[k] for k in range(1, nv)), float(w[0]) * vs[0])
+        def wdot(x, order):
+            return float(sum(w[k] * x[order[nm]] for k, nm in enumerate(names)))
+        def wjac(x, order):
+            out = np.zeros(len(x))
+            for k, nm in enumerate(names):
+                out[order[nm]] = w[k]
+            return out
+        piece = {
+            "eq": (lambda: total.eq(s - 1.0), lambda o: {"type": "eq", "fun": lambda x: float(np.sum(x)) - (s - 1.0), "jac": lambda x: np.ones(len(x))}),
+            "ineq_active": (lambda: total <= s - 1.0, lambda o: {"type": "ineq", "fun": lambda x: (s - 1.0) - float(np.sum(x)), "jac": lambda x: -np.ones(len(x))}),
+            "ineq_inactive": (lambda: total <= s + 50.0, lambda o: {"type": "ineq", "fun": lambda x: (s + 50.0) - float(np.sum(x)), "jac": lambda x: -np.ones(len(x))}),
+            "w_active": (lambda: wexpr >= float(w @ a) + 0.8, lambda o: {"type": "ineq", "fun": lambda x: wdot(x, o) - (float(w @ a) + 0.8), "jac": lambda x: wjac(x, o)}),
+        }
+        seq = {"none": [], "eq": ["eq"], "ineq_active": ["ineq_active"], "ineq_inactive": ["ineq_inactive"], "bounds_active": [], "bounds_inactive": [],
+               "eq_then_ineq": ["eq", "w_active"], "ineq_then_eq": ["w_active", "eq"], "two_ineq": ["ineq_active", "w_active"]}[cons_kind]
+        builders = []
+        for nm in seq:
+            P.subject_to(piece[nm][0]())
+            builders.append(piece[nm][1])
+        if cons_kind == "bounds_active":
             vs[0].lb = float(a[0]) + 0.5
         elif cons_kind == "bounds_inactive":
             vs[0].lb = float(a[0]) - 5.0
             vs[0].ub = float(a[0]) + 5.0
-        V = P.variables
-        order = {v.name: k for k, v in enumerate(V)}
-        methods = ["auto", "SLSQP", "trust-constr"] + (["L-BFGS-B"] if cons_kind in ("none", "bounds_active", "bounds_inactive") else [])
-        for meth in methods:
-            tried += 1
-            x0 = _compute_initial_point(V)
-            with warnings.catch_warnings():
-                warnings.simplefilter("ignore")
-                sol = P.solve(method=meth)
-                m_direct = meth if meth != "auto" else ("L-BFGS-B" if not np_cons else "SLSQP")
-                bnds = [(v.lb if v.lb is not None else -np.inf, v.ub if v.ub is not None else np.inf) for v in V]
-                try:
-                    ref = sp_minimize(lambda x: f_np(x, order), x0, jac=lambda x: g_np(x, order), method=m_direct,
-                                      bounds=bnds, constraints=np_cons if np_cons else ())
-                except Exception:
+
+        def compare(tag, history):
+            nonlocal tried, conv
+            V = P.variables
+            order = {v.name: k for k, v in enumerate(V)}
+            np_cons = [bld(order) for bld in builders]
+            box_only = not np_cons
+            methods = ["auto", "SLSQP", "trust-constr"] + (["L-BFGS-B"] if box_only else [])
+            for meth in methods:
+                tried += 1
+                x0 = _compute_initial_point(V)
+                with warnings.catch_warnings():
+                    warnings.simplefilter("ignore")
+                    sol = P.solve(method=meth)
+                    m_direct = meth if meth != "auto" else ("L-BFGS-B" if not np_cons else "SLSQP")
+                    bnds = [(v.lb if v.lb is not None else -np.inf, v.ub if v.ub is not None else np.inf) for v in V]
+                    try:
+                        ref = sp_minimize(lambda x: f_np(x, order), x0, jac=lambda x: g_np(x, order), method=m_direct,
+                                          bounds=bnds, constraints=np_cons if np_cons else ())
+                    except Exception:
+                        continue
+                if not ref.success:
                     continue
-            if not ref.success:
-                continue
-            conv += 1
-            fstar = float(ref.fun)
-            ok_status = sol.status == SolverStatus.OPTIMAL
-            gap = None
-            if sol.values:
-                xo = np.array([sol.values[v.name] for v in V])
-                gap = f_np(xo, order) - fstar
-            acc = 1e-3 if (meth == 'trust-constr') else 1e-5    # trust-constr is a barrier method: looser solver accuracy
-            if not ok_status or gap is None or gap > acc * (1 + abs(fstar)):
-                rep.violation({"kind": "differential", "obligation": "direct SciPy converges => optyx OPTIMAL with the same optimum",
-                               "witness": {"names": names, "a": a.tolist(), "d": d.tolist(), "objective": kind, "constraint": cons_kind,
-                                           "maximize_negation": mx, "method": meth, "optyx_status": sol.status.value,
-                                           "optyx_values": sol.values, "direct_x": ref.x.tolist(), "direct_fun": fstar, "gap": gap,
-                                           "reported_objective": sol.objective_value}}, concrete=True)
-            elif sol.objective_value is not None:
-                want = -f_np(xo, order) if mx else f_np(xo, order)
-                if abs(sol.objective_value - want) > 1e-7 * (1 + abs(want)):
-                    rep.violation({"kind": "differential", "obligation": "objective value in the user's orientation",
-                                   "witness": {"names": names, "method": meth, "maximize_negation": mx, "reported": sol.objective_value,
-                                               "expected": want}}, concrete=True)
+                conv += 1
+                fstar = float(ref.fun)
+                ok_status = sol.status == SolverStatus.OPTIMAL
+                gap = infeas = dist = None
+                if sol.values:
+                    xo = np.array([sol.values[v.name] for v in V])
+                    gap = f_np(xo, order) - fstar
+                    dist = float(np.max(np.abs(xo - ref.x)))
+                    infeas = 0.0
+                    for cdict in np_cons:
+                        val = float(cdict["fun"](xo))
+                        infeas = max(infeas, -val if cdict["type"] == "ineq" else abs(val))
+                    for k, (lo, hi) in enumerate(bnds):
+                        infeas = max(infeas, lo - xo[k], xo[k] - hi)
+                acc = 1e-3 if meth in ('trust-constr', 'auto') else 1e-5    # trust-constr (which auto may pick) is a barrier method: looser solver accuracy
+                # the optimum of a strictly convex problem is unique: optyx's point must be feasible for the model as written and
+                # its objective must agree with the direct call's from BOTH sides
+                bad = (not ok_status or gap is None or gap > acc * (1 + abs(fstar)) or infeas > 1e-4
+                       or gap < -(10 * acc) * (1 + abs(fstar)))
+                if bad:
+                    rep.violation({"kind": "differential", "obligation": "direct SciPy converges => optyx OPTIMAL at the same (unique) optimum, feasible for the model as written",
+                                   "witness": {"names": names, "a": a.tolist(), "d": d.tolist(), "objective": kind, "constraints": seq,
+                                               "layout": cons_kind, "history": list(history), "at": tag,
+                                               "maximize_negation": mx, "method": meth, "optyx_status": sol.status.value,
+                                               "optyx_values": sol.values, "direct_x": ref.x.tolist(), "direct_fun": fstar, "gap": gap,
+                                               "infeasibility_of_optyx_point": infeas, "distance": dist,
+                                               "reported_objective": sol.objective_value}}, concrete=True)
+                elif sol.objective_value is not None:
+                    want = -f_np(xo, order) if mx else f_np(xo, order)
+                    if abs(sol.objective_value - want) > 1e-7 * (1 + abs(want)):
+                        rep.violation({"kind": "differential", "obligation": "objective value in the user's orientation",
+                                       "witness": {"names": names, "method": meth, "maximize_negation": mx, "reported": sol.objective_value,
+                                                   "expected": want, "history": list(history)}}, concrete=True)
+
+        history = []
+        compare("first solves", history)
+        for step in range(r.randint(1, 2)):
+            edit = r.choice(["list_cut", "scalar_cut", "bound_edit", "bound_edit"])
+            edits_hist[edit] = edits_hist.get(edit, 0) + 1
+            if edit == "list_cut":
+                cut = [0.3 + 0.1 * k for k in range(nv)]
+                P.subject_to([vs[k] >= float(a[k]) + cut[k] for k in range(nv)])       # a Python list of constraints
+                for k, nm in enumerate(names):
+                    builders.append(lambda o, nm=nm, c=float(a[k]) + cut[k]: {"type": "ineq", "fun": lambda x: x[o[nm]] - c,
+                                                                            "jac": lambda x: np.eye(len(x))[o[nm]]})
+            elif edit == "scalar_cut":
+                P.subject_to(vs[0] >= float(a[0]) + 0.7)
+                builders.append(lambda o, nm=names[0], c=float(a[0]) + 0.7: {"type": "ineq", "fun": lambda x: x[o[nm]] - c,
+                                                                           "jac": lambda x: np.eye(len(x))[o[nm]]})
+            else:
+                k = r.randrange(nv)
+                if r.random() < 0.5:
+                    vs[k].lb = float(a[k]) + 0.4 + (1.0 if vs[k].lb is not None else 0.0)
+                else:
+                    vs[k].ub = float(a[k]) - 0.4 - (1.0 if vs[k].ub is not None else 0.0)
+                if vs[k].lb is not None and vs[k].ub is not None and vs[k].lb > vs[k].ub:
+                    vs[k].ub = None
+            history.append(edit)
+            compare(f"after edit {step + 1}", history)
+    manufactured.edits = edits_hist
     return tried, conv
 
 
@@ -241,7 +301,7 @@ def run(rep: vk.Report):
     for i in afails:
         rep.violation({"kind": "correspondence", "obligation": "x0 / bounds / jac / hess arguments = model", "case": args[i][:2000],
                        "witness": ameta[i]}, concrete=True)
-    tried, conv = manufactured(rep, rng, 10 if rep.tier == "quick" else 700)
+    tried, conv = manufactured(rep, rng, 18 if rep.tier == "quick" else 700)
     cov = rep.coverage
     cov["evaluations"] = len(nums) + len(args) + tried
     cov["distinct_nontrivial"] = len(set(nums)) + len(set(args))
@@ -253,6 +313,7 @@ def run(rep: vk.Report):
     cov["seam_probes"] = len(nums)
     cov["seam_probes_undecided"] = len(nund)
     cov["argument_cases"] = len(args)
+    cov["manufactured_edits"] = getattr(manufactured, "edits", {})
     cov["manufactured_solves"] = tried
     cov["manufactured_direct_converged"] = conv
     cov["correspondence_failures"] = len(nfails) + len(afails)
